@@ -37,3 +37,42 @@ bounded_check(name="c02-find-binder", props=["C02"], fn=_bb.find_case, domain=_b
               label="B3: 30 single-module programs (one per scoping feature): find_occurrences at every token of every binding against the reference binder")
 bounded_check(name="c02-projects", props=["C02"], fn=_bp.run_case, domain=_bp.domain, exhaustive=True,
               label="B3: 9 multi-module projects: occurrence sets independent of the query point; rename from every occurrence keeps the output")
+
+# ---- CPython cross-check: the whole-word contract evaluated on the real generator ---------------------------------------------------------
+def _xc_ns_domain(tier, seed):
+    import itertools
+    alphabet = "ab_ ." if tier != "thorough" else "ab_ .1"
+    for n in range(0, 7 if tier != "thorough" else 7):
+        for t in itertools.product(alphabet, repeat=n):
+            s = "".join(t)
+            for name in ("a", "ab", "a_", "aa"):
+                if n >= 6 and hash((s, name)) % 4:
+                    continue
+                yield (s, name)
+
+
+def _xc_ns_build(case):
+    from rope.refactor import occurrences
+    src, name = case
+    f = object.__new__(occurrences._TextualFinder)
+    f.name = name
+    return {"self": f, "source": src}
+
+
+_XC_NAT = {}
+
+
+def _xc_ns_run(case):
+    """the generator is consumed into a list: the contract's `result` is the sequence of yielded offsets"""
+    from pyvc import nativecheck, native
+    inputs = _xc_ns_build(case)
+    c = REG.contracts["_TextualFinder._normal_search"]
+    nat = _XC_NAT.get("nat")
+    if nat is None:
+        nat = _XC_NAT["nat"] = native.NativeSpec(REG, {"name_ids": lambda n: all(ch.isalnum() or ch == "_" for ch in n)})
+    return nativecheck.run_contract(REG, c, nat, inputs, fn=lambda self, source: list(type(self)._normal_search(self, source)))
+
+
+bounded_check(name="c02-normal-search-native", props=["C01", "C02"], fn=_xc_ns_run, domain=_xc_ns_domain, exhaustive=True,
+              label="CPython cross-check: _normal_search's contract (exactly the whole-word occurrences, increasing, none missing) on every text of <= 5 "
+                    "(a quarter of those of 6) characters over {a,b,_,space,.} x 4 names")
